@@ -1,7 +1,9 @@
 /-
 C19 — Walk, transform and paths address exactly the members of a value.
 
-Property theorems only; helper lemmas live in `CtyModel/Lemmas/Walk*.lean`.
+Property theorems only; helper lemmas live in `CtyModel/Lemmas/Walk*.lean`, `d19*.lean` and
+`d19b*.lean` (second deepening: `Enter` replacement, replace below a set, paths through
+sets, `Enter` / `Exit` nesting, PathSet with empty operands and over null / compound keys).
 
 Every statement is about the transliterations that the correspondence harness
 (`harness/c19.go`, `c19ps.go`) diffs against /repo on every run:
@@ -1009,19 +1011,25 @@ example : ∀ r' q, r' ≠ [0] → pathAt X1 setSample r' = some q → ∀ log v
 example : (transform X1 Sched.sorted setCb setSample).2 =
     .ok ⟨.set .string, .marked ["ms", "mx"] (.sset [0, 7] [.s "r", .s "q"])⟩ := by decide
 
-/-- **…and that result is a function of WHICH members `SetVal` kept** (C03, slice d03b).
-Whatever `SetVal` returned for the transformed members is a set value `sset ids vs` under
-marks; when the element type holds no capsule and `setRules.Less` is a strict total
-order on the members kept (`Payload.lessStrictTotal`, the decidable carrier of
-`C03.set_value_function_of_members`), EVERY set value holding the same members — in any
-bucket layout, built from the members in any order, e.g. by a reference that re-runs
-`SetVal` — iterates identically, is `RawEquals` and has the same `Hash`.  This is why
-the harness may compare the real result with `c19RefReplace` by `RawEquals`; for
-hash-tied members that `Less` does not order the comparison falls back to
-`c19OrderOnly` (recorded under C03). -/
+/-- **…that result holds transformed members only, with their marks hoisted, and is a
+function of WHICH members `SetVal` kept** (C03, slice d03b).  Whatever `SetVal` returned
+for the transformed members `ws` is a set value `sset ids vs` under marks, where every
+member kept is one of the transformed members with its marks removed (none is invented,
+none of the original set is kept unless it was transformed into itself), and the marks
+of the result are exactly the marks found anywhere in the transformed members together
+with the set's own `ms`.  When the element type holds no capsule and `setRules.Less` is
+a strict total order on the members kept (`Payload.lessStrictTotal`, the decidable
+carrier of `C03.set_value_function_of_members`), EVERY set value holding the same
+members — in any bucket layout, built from the members in any order, e.g. by a
+reference that re-runs `SetVal` — iterates identically, is `RawEquals` and has the same
+`Hash`.  This is why the harness may compare the real result with `c19RefReplace` by
+`RawEquals`; for hash-tied members that `Less` does not order the comparison falls
+back to `c19OrderOnly` (recorded under C03). -/
 theorem transform_set_result_function_of_members {X : SetOracle} (ws : List Value) (ms : List String)
     (r : Value) (h : (setVal X ws).map (·.withMarks ms) = .ok r) :
     ∃ e ids vs, r.unmark = ⟨.set e, .sset ids vs⟩ ∧ ids.length = vs.length ∧
+      (∀ m ∈ vs, ∃ w ∈ ws, m = w.unmarkDeep.v) ∧
+      (∀ k, k ∈ r.marks ↔ (k ∈ ms ∨ ∃ w ∈ ws, k ∈ w.marksDeep)) ∧
       (D03b.capFree e = true → D03b.GAll e vs → Payload.lessStrictTotal e vs = true →
         ∀ (iy : List Int) (ys : List Payload), iy.length = ys.length → vs.Perm ys →
           Value.setIter e vs = Value.setIter e ys ∧
@@ -1031,10 +1039,16 @@ theorem transform_set_result_function_of_members {X : SetOracle} (ws : List Valu
   | ok s =>
     rw [hs] at h
     simp only [Res.map, Res.ok.injEq] at h
-    obtain ⟨e, ids, vs, ms', rfl, hl⟩ := setVal_shape hs
-    refine ⟨e, ids, vs, ?_, hl, fun hc gx ht iy ys ly hp => ?_⟩
-    · rw [← h, PathSet.unmark_withMarks, PathSet.unmark_withMarks]
-      rfl
+    obtain ⟨e, ids, vs, hu, hl, hmem, hmk⟩ := setVal_members_marks hs
+    refine ⟨e, ids, vs, ?_, hl, hmem, fun k => ?_, fun hc gx ht iy ys ly hp => ?_⟩
+    · rw [← h, PathSet.unmark_withMarks, hu]
+    · rw [← h]
+      simp only [Value.marks, Value.withMarks]
+      rw [marks1_withMarks]
+      have := hmk k
+      simp only [Value.marks] at this
+      rw [this]
+      exact ⟨fun h => h.elim Or.inr Or.inl, fun h => h.elim Or.inr Or.inl⟩
     · have := C03.set_value_function_of_members e hc ids iy vs ys hl ly gx hp ht
       exact ⟨this.1, this.2.1, this.2.2.2⟩
   | err c => rw [hs] at h; cases h
